@@ -1,5 +1,5 @@
 From Coq Require Import ZArith List Lia Bool Arith.
-Require Import BinomDef Binom2 NAdvance NAdv GW2 BinomDP MSPot.
+Require Import Actions BinomDef Binom2 NAdvance NAdv GW2 BinomDP MSPot.
 Open Scope Z_scope.
 
 Section INST.
